@@ -101,6 +101,8 @@ KINDS = [
     ("suffix-local", 'func F_@() string {\n\tNAME, NAME2 := 1, "two"\n\tNAME3 := 3.5\n\treturn fmt.Sprint(NAME, NAME2, NAME3, USE)\n}'),
     ("suffix-outer", 'func F_@() string {\n\tNAME2 := "outer"\n\tf := func() string {\n\t\tNAME := 1\n\t\treturn fmt.Sprint(NAME, NAME2, USE)\n\t}\n\treturn f()\n}'),
     ("suffix-param", 'func F_@() string { return g_@(1, "p") }\n\nfunc g_@(NAME int, NAME2 string) string { return fmt.Sprint(NAME, NAME2, USE) }'),
+    ("embedded", 'func F_@() string {\n\ttype NAME struct{ Z int }\n\ttype t struct{ NAME }\n\tv := t{NAME: NAME{Z: 5}}\n\tv.NAME.Z++\n\treturn fmt.Sprint(v.Z, v.NAME.Z, USE)\n}'),
+    ("embedded-alias-ptr", 'func F_@() string {\n\ttype base struct{ Z int }\n\ttype NAME = base\n\ttype t struct{ *NAME }\n\tv := t{NAME: &NAME{Z: 6}}\n\treturn fmt.Sprint(v.Z, v.NAME.Z, USE)\n}'),
     ("two-locals", 'func F_@() string {\n\tNAME, NAME2 := 1, 2\n\treturn fmt.Sprint(NAME, NAME2, USE)\n}'),
 ]
 # names that mean something in the generated file: `strings` and `dep2` are import names only there (the source says
